@@ -11,7 +11,8 @@ import hypothesis.strategies as st
 import torch
 
 from ..c18_lib import (INF, SQ2, Judge, coord_extent, coord_kwargs, coord_params, defaults_of, dist0, dist_kwargs, dist_range,
-                       first_bad, is_int, loc_dist, needs_two_points, q, repo_call, seed_all, sizes)
+                       first_bad, is_int, loc_dist, needs_two_points, q, repo_call, scalar_const, scalar_dist, scalar_kwargs,
+                       scalar_range, seed_all, sizes)
 from ..envs import SPECS, py_instance
 from ..episode import MODES, run_episode
 from ..runner import Sub
@@ -25,7 +26,13 @@ RULE = (
     "gaussian_mixture, mix_distribution, mix_multi_distributions), demand ranges and capacity overrides, CVRPTW "
     "max_time/scale/max_loc under the feasibility precondition, OP prize types and scalar/tensor max_length, PCTSP penalty "
     "settings, mTSP agent ranges, SVRP technician lists, MDCPDP depots/modes/capacities, ATSP tmat_class, all MTVRP presets "
-    "with subsample / use_combinations / demand / backhaul settings, FJSP/JSSP/FFSP/SMTWTP shapes, FLP/MCP sizes and quotas. "
+    "with subsample / use_combinations / demand / backhaul settings, FJSP/JSSP/FFSP/SMTWTP shapes, FLP/MCP sizes and quotas; "
+    "the 'gaussian' alias; scalar sampler routes (Uniform class, callable, constant int/float, explicit sampler object, "
+    "sub-range sampler) for CVRP/CVRPTW demand, MDCPDP lateness weight, MCP item weights and set sizes; CVRP/CVRPTW "
+    "vehicle_capacity; DPP/MDPP generators on synthetic PDN data (chip 4x4-10x10, keep-out / probe ranges, quota). Every "
+    "generator object is called three times: the second batch (other seed, same or other batch size) is judged by the same "
+    "predicates, must leave the first batch untouched and be a fresh draw; a third call under the first seed must "
+    "reproduce the first batch. "
     "bulk = the same predicates on 10^5-row draws of CVRP/CVRPTW/MTVRP. Non-trivial = configuration differing from the "
     "generator's defaults in >= 2 parameters; distinct = distinct case hash."
 )
@@ -44,7 +51,10 @@ ASSUMPTIONS = [
     "float tolerances: 1e-6 relative on coordinate ranges and the ATSP triangle inequality, 1e-4 absolute (scaled units) on time-window "
     "reachability / return predicates, 1e-4 on integrality of demand*capacity",
     "episodes of large batches run on a prefix of the rows (rows*bound <= ~2500 steps); one FFSP env object per episode",
-    "MDCPDP: env start_mode kept at 'order' (start_mode='random' is env behaviour, outside the generator property); when the "
+    "vehicle_capacity >= max_demand / capacity (largest normalised demand) so that every customer fits a vehicle; DPP/MDPP: "
+    "cells - max_decaps - num_probes_max - 2 >= num_keepout_max (max_decaps free cells always remain); constants handed to a "
+    "*_distribution argument lie inside the generator's own [min, max] range of that quantity",
+    "MDCPDP: env start_mode kept at 'order' (start_mode='random' is env behaviour, drawn in C01-C04); when the "
     "generated capacity is [B,1] with num_depot > 1 (F5) the solvable clause is judged with capacity expanded to [B,num_depot]",
     "mTSP num_loc=1 and SVRP single-technician lists are generated and reported under their own boundary signatures "
     "(mtsp|single_loc|*, svrp|single_tech|*)",
@@ -66,7 +76,9 @@ def _wrap(name, pstrat):
     @st.composite
     def s(draw):
         return {"gen": name, "p": draw(pstrat), "B": draw(_batch()), "seed": draw(st.integers(0, 2 ** 31 - 1)),
-                "route": draw(st.sampled_from(["direct", "env"])), "rows": draw(_rows())}
+                "route": draw(st.sampled_from(["direct", "env"])), "rows": draw(_rows()),
+                # batch size of the SECOND call of the same generator object (None = the same size again)
+                "B2": draw(st.one_of(st.none(), st.integers(1, 8)))}
     return s()
 
 
@@ -264,9 +276,31 @@ def draw_demand(draw, p):
         p["capacity"] = float(draw(st.one_of(st.integers(mx, mx + 3), st.integers(mx, 100))))
     if draw(st.integers(0, 5)) == 0:
         p["demand_distribution"] = "uniform"
+    elif draw(st.integers(0, 2)) == 0:
+        # every route of `demand_distribution` (Uniform class, callable, constant int / float) and the explicit
+        # `demand_sampler` object; the raw samples live on [min_demand - 1, max_demand - 1]
+        p["demand"] = draw(scalar_dist(["uniform_cls", "callable", "callable_sub", "const", "const", "spy", "sampler_sub"]))
+    if draw(st.integers(0, 3)) == 0:
+        # vehicle_capacity (capacity in normalised demand units, read by the env's reset): kept >= the largest
+        # normalised demand max_demand / capacity, the precondition of a solvable instance
+        n = p["num_loc"]
+        top = p.get("max_demand", 10) / (p.get("capacity") or default_capacity(n))
+        ok = [v for v in (2.0, 1.5, 0.75, 0.5, 1.25) if v >= top]
+        if ok:
+            p["vehicle_capacity"] = draw(st.sampled_from(ok))
 
 
-def check_demand(J, td, p, B, n, key="demand", shape=None):
+def demand_kwargs(p, spies):
+    kw = {}
+    for k in ("min_demand", "max_demand", "capacity", "demand_distribution", "vehicle_capacity"):
+        if k in p:
+            kw[k] = p[k]
+    if "demand" in p:
+        kw.update(scalar_kwargs(p["demand"], "demand", p.get("min_demand", 1) - 1, p.get("max_demand", 10) - 1, spies))
+    return kw
+
+
+def check_demand(J, td, p, B, n, key="demand", shape=None, spies=None):
     cap = p.get("capacity") or default_capacity(n)
     dem = J.shape(td, key, shape or (B, n), "float")
     J.finite(dem, key)
@@ -280,6 +314,23 @@ def check_demand(J, td, p, B, n, key="demand", shape=None):
     J.ok(good, "demand_range", f"integer demand outside [{lo},{hi}] (capacity {cap}): min {float(u.min()) if u.numel() else None} "
                                 f"max {float(u.max()) if u.numel() else None}")
     J.ok(dem <= 1.0 + 1e-6, "demand_above_capacity", "normalised demand above the vehicle capacity 1.0")
+    if "vehicle_capacity" in p:
+        J.ctx.event(f"vehicle_capacity:{'<1' if p['vehicle_capacity'] < 1 else '>1'}")
+        J.ok(dem <= p["vehicle_capacity"] + 1e-6, "demand_above_vehicle_capacity",
+             f"normalised demand above vehicle_capacity={p['vehicle_capacity']} although max_demand/capacity is not")
+    if "demand" in p:
+        d = p["demand"]
+        J.ctx.event(f"demand_dist:{d['kind']}")
+        r = scalar_range(d, lo - 1, hi - 1)
+        wlo, whi = math.floor(r[0] + 1e-9) + 1, math.floor(r[1] + 1e-9) + 1  # integer demand = int(raw sample) + 1
+        J.ok((u >= wlo) & (u <= whi), f"demand_range|{d['kind']}",
+             f"integer demand outside [{wlo},{whi}] = int(raw sample on [{r[0]},{r[1]}]) + 1: min {float(u.min())} max {float(u.max())}")
+        if d["kind"] == "spy" and spies is not None:
+            sp = spies.get("demand")
+            if J.ok(sp is not None and len(sp.out) >= 1, "demand_sampler_ignored", "explicit demand_sampler object was never sampled"):
+                want = (sp.out[-1].int() + 1).float() / cap
+                J.ok(want.shape == dem.shape and torch.equal(want, dem), "demand_sampler_output",
+                     "emitted demand is not (int(sample) + 1) / capacity of what the explicit demand_sampler returned")
     c = td["capacity"]
     J.ok(c.numel() == B and bool((c == cap).all()), "capacity_value", f"capacity tensor {tuple(c.shape)} != configured {cap}")
     return dem
@@ -298,9 +349,7 @@ class CVRP(G):
 
     def kwargs(self, p, spies, B):
         kw = coord_kwargs(p, spies)
-        for k in ("min_demand", "max_demand", "capacity", "demand_distribution"):
-            if k in p:
-                kw[k] = p[k]
+        kw.update(demand_kwargs(p, spies))
         return kw
 
     def exclude(self, p, B):
@@ -310,7 +359,7 @@ class CVRP(G):
         n = p["num_loc"]
         J.keys(td, ["locs", "depot", "demand", "capacity"])
         check_coords(J, td, p, B, n, spies)
-        check_demand(J, td, p, B, n)
+        check_demand(J, td, p, B, n, spies=spies)
 
     def bound(self, p, row, gen):
         return 2 * p["num_loc"] + 1
@@ -356,7 +405,7 @@ class CVRPTW(CVRP):
         scaled = bool(p.get("scale", False))
         J.keys(td, ["locs", "depot", "demand", "capacity", "durations", "time_windows"])
         locs, dep = check_coords(J, td, p, B, n, spies, scale=(T if scaled else 1.0))
-        check_demand(J, td, p, B, n)
+        check_demand(J, td, p, B, n, spies=spies)
         check_tw(J, td, locs, dep, B, n, T, scaled)
         J.ctx.event("cvrptw:scaled" if scaled else "cvrptw:unscaled")
         if T <= tw_precondition(p) + 3:
@@ -640,7 +689,7 @@ class MDCPDP(G):
     def params(self, tier):
         @st.composite
         def s(draw):
-            p = draw(coord_params(tier, depot_kinds=["none"] * 4 + ["uniform_str", "uniform_cls", "spy", "sampler_sub", "const", "normal"]))
+            p = draw(coord_params(tier, depot_kinds=["none"] * 4 + ["uniform_str", "uniform_cls", "spy", "sampler_sub", "const", "normal", "gaussian"]))
             _opt(draw, p, "num_depot", st.integers(1, 6), 1)
             _opt(draw, p, "depot_mode", st.sampled_from(["single", "multiple"]), 2)
             if draw(st.booleans()):
@@ -649,6 +698,9 @@ class MDCPDP(G):
             if draw(st.integers(0, 2)) == 0:
                 lo = draw(q(0, 2))
                 p["min_lateness_weight"], p["max_lateness_weight"] = lo, lo + draw(q(0, 2))
+            if draw(st.integers(0, 2)) == 0:
+                # lateness_weight_distribution ("uniform", Uniform, callable, constant) / explicit lateness_weight_sampler
+                p["lw"] = draw(scalar_dist(["uniform_str", "uniform_cls", "callable", "callable_sub", "const", "spy", "sampler_sub"]))
             _opt(draw, p, "problem_mode", st.sampled_from(["close", "open"]), 2)
             _opt(draw, p, "reward_mode", st.sampled_from(["lateness", "lateness_square", "minmax", "minsum"]), 3)
             return p
@@ -659,6 +711,9 @@ class MDCPDP(G):
         for k in ("num_depot", "depot_mode", "min_capacity", "max_capacity", "min_lateness_weight", "max_lateness_weight"):
             if k in p:
                 kw[k] = p[k]
+        if "lw" in p:
+            kw.update(scalar_kwargs(p["lw"], "lateness_weight", p.get("min_lateness_weight", 1.0),
+                                    p.get("max_lateness_weight", 1.0), spies))
         return kw
 
     def neven(self, p):
@@ -686,6 +741,17 @@ class MDCPDP(G):
         J.within(cap, p.get("min_capacity", 1), p.get("max_capacity", 5), "capacity", tol=0, what="capacity_range")
         lw = J.shape(td, "lateness_weight", (B, 1), "float")
         J.within(lw, p.get("min_lateness_weight", 1.0), p.get("max_lateness_weight", 1.0), "lateness_weight", what="lateness_range")
+        if "lw" in p:
+            d = p["lw"]
+            J.ctx.event(f"lateness_weight_dist:{d['kind']}")
+            r = scalar_range(d, p.get("min_lateness_weight", 1.0), p.get("max_lateness_weight", 1.0))
+            J.within(lw, r[0], r[1], f"lateness_weight|{d['kind']}", what="lateness_range")
+            if d["kind"] == "spy":
+                sp = spies.get("lateness_weight")
+                if J.ok(sp is not None and len(sp.out) >= 1, "lateness_weight_sampler_ignored",
+                        "explicit lateness_weight_sampler object was never sampled"):
+                    J.ok(sp.out[-1].shape == lw.shape and torch.equal(sp.out[-1], lw), "lateness_weight_sampler_output",
+                         "emitted lateness_weight is not what the explicit lateness_weight_sampler returned")
         # the consuming env (MDCPDPEnv._step/_get_reward, MDCPDPInitEmbedding) reads num_depot = capacity.shape[-1]
         slc = "num_depot=1" if nd == 1 else "num_depot>1"
         J.ok(tuple(cap.shape) == (B, nd), f"capacity_shape|{slc}",
@@ -1103,12 +1169,24 @@ class MCP(G):
                 lo = draw(st.integers(1, 5))
                 p["min_weight"], p["max_weight"] = lo, draw(st.integers(lo, lo + 10))
             p["n_sets_to_choose"] = draw(st.integers(1, p["num_sets"]))
-            _opt(draw, p, "size_distribution", st.just("uniform"), 5)
+            if draw(st.integers(0, 4)) == 0:
+                p["size_distribution"] = "uniform"
+            elif draw(st.integers(0, 2)) == 0:
+                # size_distribution (Uniform, callable, constant) / explicit size_sampler; raw samples on [min_size, max_size + 1]
+                p["size"] = draw(scalar_dist(["uniform_cls", "callable", "callable_sub", "const", "spy", "sampler_sub"]))
+            if draw(st.integers(0, 2)) == 0:
+                # weight_distribution ("uniform", Uniform, callable, constant) / explicit weight_sampler on [min_weight, max_weight + 1]
+                p["weight"] = draw(scalar_dist(["uniform_str", "uniform_cls", "callable", "callable_sub", "const", "spy", "sampler_sub"]))
             return p
         return s()
 
     def kwargs(self, p, spies, B):
-        return dict(p)
+        kw = {k: v for k, v in p.items() if k not in ("size", "weight")}
+        if "size" in p:
+            kw.update(scalar_kwargs(p["size"], "size", p["min_size"], p["max_size"] + 1, spies))
+        if "weight" in p:
+            kw.update(scalar_kwargs(p["weight"], "weight", p.get("min_weight", 1), p.get("max_weight", 10) + 1, spies))
+        return kw
 
     def check(self, J, td, p, kw, B, gen, spies):
         J.keys(td, ["membership", "weights", "n_sets_to_choose"])
@@ -1128,13 +1206,119 @@ class MCP(G):
         # items of a set are packed first: no zero before a non-zero entry is NOT documented -> not asserted
         J.ok(is_int(w), "weights_not_integer", "item weights are not integers")
         J.within(w, p.get("min_weight", 1), p.get("max_weight", 10), "weights", tol=0, what="weight_range")
+        # whatever the sampler: weight = clamp(floor(sample), min_weight, max_weight), set size = clamp(floor(sample), min_size,
+        # max_size) (docstring: minimum / maximum value for the item weights, minimum / maximum size for the sets)
+        if "weight" in p:
+            d = p["weight"]
+            J.ctx.event(f"mcp_weight_dist:{d['kind']}")
+            wl, wh = p.get("min_weight", 1), p.get("max_weight", 10)
+            r = scalar_range(d, wl, wh + 1)
+            clampi = lambda x, a, b: min(max(math.floor(x + 1e-9), a), b)
+            J.within(w, clampi(r[0], wl, wh), clampi(r[1], wl, wh), f"weights|{d['kind']}", tol=0, what="weight_range")
+            if d["kind"] == "spy":
+                sp = spies.get("weight")
+                if J.ok(sp is not None and len(sp.out) >= 1, "weight_sampler_ignored", "explicit weight_sampler object was never sampled"):
+                    want = sp.out[-1].floor().clamp(wl, wh)
+                    J.ok(want.shape == w.shape and torch.equal(want, w), "weight_sampler_output",
+                         "item weights are not clamp(floor(sample)) of what the explicit weight_sampler returned")
+        if "size" in p:
+            d = p["size"]
+            J.ctx.event(f"mcp_size_dist:{d['kind']}")
+            sl_, sh_ = p["min_size"], p["max_size"]
+            r = scalar_range(d, sl_, sh_ + 1)
+            clampi = lambda x, a, b: min(max(math.floor(x + 1e-9), a), b)
+            top = clampi(r[1], sl_, sh_)
+            J.ok(mem.shape[2] <= top and bool((cnt <= top).all()), f"set_size_range|{d['kind']}",
+                 f"membership width {mem.shape[2]} / a set holds more items than the largest size {top} the size distribution can emit")
+            if d["kind"] == "spy":
+                sp = spies.get("size")
+                if J.ok(sp is not None and len(sp.out) >= 1, "size_sampler_ignored", "explicit size_sampler object was never sampled"):
+                    sz = sp.out[-1].floor().long().clamp(sl_, sh_)
+                    J.ok(sz.shape == cnt.shape and mem.shape[2] == int(sz.max()) and bool((cnt <= sz).all()), "size_sampler_output",
+                         "set sizes / membership width do not follow clamp(floor(sample)) of the explicit size_sampler")
 
     def bound(self, p, row, gen):
         return p["n_sets_to_choose"]
 
 
+# --------------------------------------------------------------------------- DPP / MDPP (synthetic PDN data, vf/eda.py)
+class DPP(G):
+    """Decap placement: grid locations (i/m, j/m), one probing port, keep-out cells; the documented mask "eliminates the
+    keepout regions and the probe location".  The chip size comes from the data file (vf.eda writes 4x4 ... 10x10)."""
+    name, gen_path, env_name, spec = "dpp", "rl4co.envs.eda.dpp.generator:DPPGenerator", "DPPEnv", "dpp"
+    multi = False
+
+    def params(self, tier):
+        multi = self.multi
+
+        @st.composite
+        def s(draw):
+            size = draw(st.sampled_from([4, 5, 6, 8] if tier == "quick" else [4, 5, 6, 8, 10]))
+            cells = size * size
+            p = {"size": size, "max_decaps": draw(st.integers(1, 6))}
+            pmax = 0
+            if multi:
+                lo = draw(st.integers(1, 3))
+                p["num_probes_min"], p["num_probes_max"] = lo, draw(st.integers(lo + 1, lo + 3))
+                pmax = p["num_probes_max"]
+                _opt(draw, p, "reward_type", st.sampled_from(["minmax", "meansum"]), 2)
+            # precondition of a solvable instance: max_decaps free cells are left whatever is drawn
+            room = cells - p["max_decaps"] - pmax - 2
+            kmin = draw(st.integers(0, min(3, room - 1)))
+            p["num_keepout_min"], p["num_keepout_max"] = kmin, draw(st.integers(kmin + 1, max(kmin + 1, room)))
+            return p
+        return s()
+
+    def kwargs(self, p, spies, B):
+        from ..eda import data_dir
+        kw = {k: v for k, v in p.items() if k not in ("size", "reward_type")}
+        kw.update(data_dir=data_dir(), chip_file=f"{p['size']}x{p['size']}_pkg_chip.npy")
+        return kw
+
+    env_kw_keys = ()
+
+    def nondefault(self, p, kw):
+        return [k for k in super().nondefault(p, kw) if k != "data_dir"]
+
+    def check(self, J, td, p, kw, B, gen, spies):
+        m = p["size"]
+        N = m * m
+        J.keys(td, ["locs", "probe", "action_mask"])
+        J.ok(gen.size == m, "chip_size", f"generator size {gen.size} != size of the chip file {m}")
+        locs = J.shape(td, "locs", (B, N, 2), "float")
+        g = torch.stack(torch.meshgrid(torch.arange(m), torch.arange(m), indexing="ij"), -1).reshape(-1, 2).float() / m
+        J.ok((locs - g[None]).abs() <= 1e-6, "grid", "locs is not the row-major grid (i/size, j/size)")
+        mask = J.shape(td, "action_mask", (B, N), "bool")
+        if self.multi:
+            probe = J.shape(td, "probe", (B, N), "bool")
+            npb = probe.sum(-1)
+            J.within(npb, p["num_probes_min"], p["num_probes_max"], "probe", tol=0, what="probe_count")
+            is_probe = probe
+        else:
+            probe = J.shape(td, "probe", (B, 1), "int")
+            J.within(probe, 0, N - 1, "probe", tol=0, what="probe_range")
+            is_probe = torch.zeros(B, N, dtype=torch.bool).scatter(1, probe.clamp(0, N - 1), True)
+        J.ok(~(mask & is_probe), "probe_not_masked", "a probing port is offered as a decap location")
+        keep = (~mask & ~is_probe).sum(-1)  # masked cells that are not probing ports = keep-out cells
+        J.ok(keep <= p["num_keepout_max"], "keepout_count", f"more than num_keepout_max={p['num_keepout_max']} keep-out cells: "
+                                                            f"{int(keep.max())}")
+        # a keep-out draw may coincide with a probing port, so at least num_keepout_min - #ports cells remain visible
+        nports = is_probe.sum(-1)
+        J.ok(keep >= p["num_keepout_min"] - nports, "keepout_count_min", "fewer keep-out cells than num_keepout_min allows")
+        J.ok(mask.sum(-1) >= p["max_decaps"], "not_enough_free_cells", "fewer free cells than max_decaps")
+
+    def bound(self, p, row, gen):
+        return p["max_decaps"]
+
+
+class MDPP(DPP):
+    name, gen_path, env_name, spec = "mdpp", "rl4co.envs.eda.mdpp.generator:MDPPGenerator", "MDPPEnv", "mdpp"
+    multi = True
+    env_kw_keys = ("reward_type",)
+
+
 GENS = {g.name: g for g in [TSP(), ATSP(), CVRP(), CVRPTW(), OP(), PCTSP(), PDP(), MTSP(), SVRP(), MDCPDP(), MTVRP(), FJSP(),
-                            JSSP(), FFSP(), SMTWTP(), FLP(), MCP()]}
+                            JSSP(), FFSP(), SMTWTP(), FLP(), MCP(), DPP(), MDPP()]}
 
 
 # =========================================================================== execution
@@ -1184,7 +1368,72 @@ def execute(case, ctx):
     J.ok(tuple(td.batch_size) == (B,), "batch_size", f"TensorDict batch_size {tuple(td.batch_size)} != ({B},)")
     g.check(J, td, p, kw, B, gen, spies)
     ctx.sample({"gen": g.name, "p": p, "B": B, "nondefault": nd})
+    again(g, case, ctx, gen, td, kw, spies, crash)
     solvable(g, case, ctx, env, td, gen)
+
+
+def td_equal(a, b):
+    """first key in which two generated TensorDicts differ (None = identical keys, shapes, dtypes and values)"""
+    if set(a.keys()) != set(b.keys()):
+        return "keys"
+    for k in sorted(a.keys()):
+        x, y = a[k], b[k]
+        if x.shape != y.shape or x.dtype != y.dtype:
+            return k
+        same = (x == y) | ((x != x) & (y != y)) if x.dtype.is_floating_point else (x == y)
+        if not bool(same.all()):
+            return k
+    return None
+
+
+def name_is_batch_bound(g, p):
+    return g.name == "op" and "max_length_list" in p
+
+
+def again(g, case, ctx, gen, td1, kw, spies, crash):
+    """One generator object called several times in a row (every dataset / every reset without data does that): the
+    second batch - possibly of another size - must satisfy the same predicates as the first, must not touch the first
+    batch, must be a fresh draw, and what a call returns must depend on the configuration and the RNG state only: a
+    third call under the first call's seed reproduces the first batch."""
+    p, B, seed = case["p"], case["B"], case["seed"]
+    B2 = case.get("B2") or B
+    if name_is_batch_bound(g, p):
+        B2 = B  # the configuration itself holds one value per row (OP max_length tensor): other sizes are outside its domain
+    name = g.name
+    keep = td1.clone()
+    for sp in spies.values():
+        sp.out.clear()
+    seed_all(seed + 7)
+    td2 = repo_call(ctx, crash or f"crash|instance|{name}", gen, [B2])
+    J = Judge(ctx, name, case)
+    J.note = "second call of the same generator object"
+    J.ok(tuple(td2.batch_size) == (B2,), "batch_size", f"TensorDict batch_size {tuple(td2.batch_size)} != ({B2},) in the second call")
+    g.check(J, td2, p, kw, B2, gen, spies)
+    ctx.event("second_call:" + ("same_batch_size" if B2 == B else "other_batch_size"))
+    diff = td_equal(keep, td1)
+    ctx.check(diff is None, f"{name}|second_call|first_batch_modified",
+              f"{name}: the batch returned by the first call changed in {diff!r} when the generator was called again")
+    # fresh draw: some float key with >= 4 distinct values in the first batch must not come back identical
+    if B2 == B:
+        # (a key whose rows all coincide - grid coordinates, constants - is configuration, not a draw)
+        rich = [k for k in td1.keys() if td1[k].dtype.is_floating_point and td1[k].unique().numel() >= 4
+                and B >= 2 and not bool((td1[k] == td1[k][:1]).all())
+                and k in td2.keys() and td2[k].shape == td1[k].shape]
+        if rich:
+            ctx.check(any(not torch.equal(td1[k], td2[k]) for k in rich), f"{name}|second_call|repeats_first_batch",
+                      f"{name}: the second call (other seed) returned the first batch again in all of {rich}")
+            ctx.event("second_call:fresh_draw_checked")
+    for sp in spies.values():
+        sp.out.clear()
+    seed_all(seed)
+    bs = B if seed % 2 else [B]
+    td3 = repo_call(ctx, crash or f"crash|instance|{name}", gen, bs)
+    diff = td_equal(td1, td3)
+    ctx.check(diff is None, f"{name}|second_call|not_reproducible",
+              f"{name}: a third call under the seed of the first call does not reproduce the first batch (key {diff!r}): "
+              "the output depends on the calls made before")
+    for sp in spies.values():  # leave the spies as after a single call (solvable / later readers)
+        sp.out[:] = sp.out[:1]
 
 
 def solvable(g, case, ctx, env, td, gen):
@@ -1270,9 +1519,12 @@ def bulk_cases(tier):
         g = GENS[name]
         p = draw(g.params(tier))
         p["num_loc"] = draw(st.integers(1, 10))
+        if "vehicle_capacity" in p and name != "mtvrp" and \
+                p["vehicle_capacity"] < p.get("max_demand", 10) / (p.get("capacity") or default_capacity(p["num_loc"])):
+            del p["vehicle_capacity"]  # precondition re-evaluated for the new size (other capacity table entry)
         for role in ("loc", "depot"):
             if role in p and p[role]["kind"] in ("spy", "gaussian_mixture", "mix_multi_distributions", "mix_distribution",
-                                                 "normal", "exponential", "poisson"):
+                                                 "normal", "gaussian", "exponential", "poisson"):
                 p[role] = {"kind": "default" if role == "loc" else "none"}
         return {"gen": name, "p": p, "B": 100000 if tier == "quick" else 200000, "seed": draw(st.integers(0, 2 ** 31 - 1))}
     return s()
@@ -1307,6 +1559,11 @@ def fam(names, weights=None):
     return strat
 
 
+def preimport():
+    from ..eda import data_dir
+    data_dir()
+
+
 SUBS = [
     Sub("coords", execute, strategy=fam(["tsp", "pdp", "mtsp", "flp", "svrp"]), budget={"quick": 1856, "thorough": 12000}, shards=16),
     Sub("demand_tw", execute, strategy=fam(["cvrp", "cvrptw"], {"cvrptw": 2}), budget={"quick": 1568, "thorough": 11000}, shards=16),
@@ -1315,5 +1572,6 @@ SUBS = [
     Sub("mtvrp", execute, strategy=fam(["mtvrp"]), budget={"quick": 1568, "thorough": 10000}, shards=16),
     Sub("scheduling", execute, strategy=fam(["fjsp", "jssp", "ffsp", "smtwtp"]), budget={"quick": 1264, "thorough": 8000}, shards=16),
     Sub("graph", execute, strategy=fam(["mcp", "flp"], {"mcp": 2}), budget={"quick": 784, "thorough": 5000}, shards=16),
+    Sub("eda", execute, strategy=fam(["dpp", "mdpp"]), budget={"quick": 480, "thorough": 3000}, shards=16),
     Sub("bulk", execute_bulk, strategy=bulk_cases, budget={"quick": 144, "thorough": 480}, shards=16, weight=3.0),
 ]
